@@ -615,3 +615,63 @@ func isLoopCounter(x *ssa.BinOp) bool {
 	}
 	return true
 }
+
+// ARI6: an error raised by a value-layer operation reaches ArithmeticExpression
+// unchanged or wrapped with %w, so that the overflow / divide-by-zero sentinels
+// can still be recognised and mapped to empty.
+func ruleARI6(p *Program) *RuleResult {
+	r := newResult("ARI6")
+	for _, name := range []string{"EvaluateAdd", "EvaluateSub", "EvaluateMul", "EvaluateDiv", "EvaluateFloorDiv", "EvaluateMod"} {
+		fn, err := p.Func("fhirpath/internal/expr", name)
+		if err != nil {
+			return r.anchorFail(err)
+		}
+		for _, b := range fn.Blocks {
+			for _, ins := range b.Instrs {
+				c, ok := ins.(*ssa.Call)
+				if !ok {
+					continue
+				}
+				sc := c.Common().StaticCallee()
+				if sc == nil || !inRepoFn(sc) || !strings.HasSuffix(fnPkgPath(sc), "/fhirpath/system") {
+					continue
+				}
+				res := sc.Signature.Results()
+				if res.Len() != 2 || !isErrorType(res.At(1).Type()) {
+					continue
+				}
+				r.count("fallible_operations", 1)
+				an := newAnalyzer()
+				an.maxBlocks = 300
+				an.pin[c] = aval{k: kTuple, tup: []aval{top, nonnil("value-layer-sentinel")}}
+				out := an.analyze(fn, []aval{top, top})
+				reach := reachableFrom(b)
+				reach[b] = true
+				key := fmt.Sprintf("expr.%s|%s", name, shortName(sc.RelString(nil)))
+				var problems []string
+				n := 0
+				for _, ri := range out.rets {
+					if !reach[ri.instr.Block()] {
+						continue
+					}
+					n++
+					e := ri.vals[len(ri.vals)-1]
+					if !(e.k == kNonNil && hasNote(e, "value-layer-sentinel")) {
+						problems = append(problems, fmt.Sprintf("returns %s at %s", e, p.instrPos(ri.instr)))
+					}
+				}
+				switch {
+				case n == 0:
+					r.undecided(key, fmt.Sprintf("no return reachable from the call of %s in %s", shortName(sc.RelString(nil)), name), p.instrPos(ins), "shape changed")
+				case len(problems) > 0:
+					r.bad(key, fmt.Sprintf("when %s fails, %s does not hand its error on (unchanged or wrapped with %%w): %s", shortName(sc.RelString(nil)), name, strings.Join(problems, "; ")), p.instrPos(ins),
+						"ErrIntOverflow / ErrDivideByZero are recognised with errors.Is by the arithmetic node and mapped to empty; an error that loses its sentinel becomes an evaluation error")
+				default:
+					r.ok(key, fmt.Sprintf("an error of %s is returned by %s unchanged or wrapped", shortName(sc.RelString(nil)), name), p.instrPos(ins), "SCCP with the operation pinned to fail with a tagged error: every return after it carries the tag", true)
+				}
+			}
+		}
+	}
+	r.floor("fallible_operations", 8)
+	return r
+}
